@@ -175,15 +175,18 @@ class STd(_T): pass        # timedelta, t = days
 
 
 class SDyn(_T):
-    __slots__ = ('t', 'callable', 'shape')
+    __slots__ = ('t', 'callable', 'shape', 'old')
 
-    def __init__(self, t, callable=False, shape=None):
+    def __init__(self, t, callable=False, shape=None, old=False):
         self.t = t
         self.callable = callable
         self.shape = shape
+        self.old = old         # attribute reads go to the pre-state field arrays
 
 
 class SSeq(SV):
+    old = False
+
     def __init__(self, t, kind='list', elem=None):
         self.t, self.kind, self.elem = t, kind, elem
 
@@ -192,9 +195,10 @@ class SSeq(SV):
 
 
 class SSet(SV):
-    """set of Val: z3 array Val->Bool (membership only)."""
-    def __init__(self, t):
+    """set of Val: z3 array Val->Bool (membership); src = sequence of the elements it was built from, if known"""
+    def __init__(self, t, src=None):
         self.t = t
+        self.src = src
 
 
 class STuple(SV):
@@ -251,6 +255,11 @@ class SCallee(SV):
 class SGetter(SV):
     """operator.attrgetter(name) / operator.itemgetter(i)."""
     def __init__(self, kind, arg): self.kind, self.arg = kind, arg
+
+
+class SDict(SV):
+    """symbolic dict: has: Array(Val->Bool), get: Array(Val->Val)"""
+    def __init__(self, has, get): self.has, self.get = has, get
 
 
 class SDictC(SV):
